@@ -144,8 +144,8 @@ HasDefault(s, n) ==
   \/ \E i \in 1 .. NPosParams(s) : PosParams(s)[i] = n /\ HasPosDefault(s, i)
 Lost(p, s) == {n \in ParamNames(s) : HasDefault(p, n) /\ ~HasDefault(s, n)}   \* defaults p has, s has not
 Supplied(s, c) == FilledByPos(s, c) \cup (c.kws \cap KwTargets(s))
-UsesDefault(s, c) ==
-  LET b == Bind(s, c) IN b.err = "none" /\ \E n \in ParamNames(s) : b.slots[n][1] = "default"
+UsesDefault(s, c) ==    \* the call binds and some parameter takes its default (= is not supplied)
+  ErrKind(s, c) = "none" /\ \E n \in ParamNames(s) : n \notin Supplied(s, c)
 
 (* Laws of a re-assignment p -> s (same parameters, other defaults) for any call c *)
 RedefLaws(p, s, c) ==
